@@ -244,7 +244,7 @@ impl Engine for C09 {
     }
     fn runs(&self, quick: bool) -> u64 {
         if quick {
-            1_200
+            2_000
         } else {
             40_000
         }
